@@ -386,7 +386,7 @@ func scenarioC18(r *Run) {
 	if res.Switches > 0 {
 		r.Fired("preempt@site")
 	}
-	r.Outcome(fmt.Sprintf("tasks=%d/switches=%s", ntasks, bucket(res.Switches)))
+	r.Outcome(fmt.Sprintf("tasks=%d/switches=%s/sched=%x", ntasks, bucket(res.Switches), res.Hash))
 	r.Check()
 	if res.Violation != "" {
 		r.Fail("shared-value-modified-during-concurrent-read", "at a scheduler step inside the block a shared value differed from its initial snapshot: %s\noperations: %v", res.Violation, opNames)
